@@ -787,7 +787,6 @@ def run(ctx):
         if not derr:
             vterms_idx = [i for i in dbad]
             if vterms_idx:
-                only_valid = [ctuple(*_split_case(dterms[i])) for i in vterms_idx]
                 vb, verr = core.coq_eval_cases(ctx, HEADER, 'C04.xcase',
                                                [c_xcase(docs[i][2], xres[i][0]) for i in vterms_idx],
                                                'C04.xmismatches', chunk=15, label='xdocs')
@@ -896,10 +895,6 @@ def run(ctx):
                      '3-component light colours, shader-specific parameters (no texture for float parameters), node children in schema '
                      'order, non-empty scenes, one VERTEX source per geometry, no zfar on point lights, finite floats, <extra> with a technique'],
         extra={'xmllint_present': have_xl})
-
-
-def _split_case(t):
-    return (t,)
 
 
 def replay(ctx, body):
